@@ -284,6 +284,19 @@ type UnchunkWriter struct {
 
 	closing chan struct{} // closed when writer closing has started
 	closeMu sync.Mutex    // to keep Close and CloseWithError from happening simultaneously
+	wMu     sync.Mutex    // guards w: Close may run while another goroutine is still in NextServiceInfo
+}
+
+func (w *UnchunkWriter) currentPipe() pipeWriter {
+	w.wMu.Lock()
+	defer w.wMu.Unlock()
+	return w.w
+}
+
+func (w *UnchunkWriter) setPipe(pw pipeWriter) {
+	w.wMu.Lock()
+	w.w = pw
+	w.wMu.Unlock()
 }
 
 // NextServiceInfo must be called once before each logical ServiceInfo.
@@ -291,7 +304,7 @@ func (w *UnchunkWriter) NextServiceInfo(moduleName, messageName string) error {
 	if err := w.nextPipe(false); err != nil {
 		return err
 	}
-	return cbor.NewEncoder(w.w).Encode(moduleName + ":" + messageName)
+	return cbor.NewEncoder(w.currentPipe()).Encode(moduleName + ":" + messageName)
 }
 
 // ForceNewMessage causes the next (*ChunkReader).ReadChunk to return
@@ -307,8 +320,8 @@ func (w *UnchunkWriter) ForceNewMessage() error {
 
 func (w *UnchunkWriter) nextPipe(forceNewMessage bool) error {
 	// Close the writer of any existing pipe
-	if w.w != nil {
-		_ = w.w.Close()
+	if cur := w.currentPipe(); cur != nil {
+		_ = cur.Close()
 	}
 
 	// Create a new pipe
@@ -341,14 +354,14 @@ func (w *UnchunkWriter) nextPipe(forceNewMessage bool) error {
 		_ = pw.Close()
 	}
 
-	w.w = pw
+	w.setPipe(pw)
 	return nil
 }
 
 // Write may be called any number of times to write the contents of a
 // ServiceInfo value, but it must be preceded by a call to Next and must be
 // succeeded by a call to either Next or Close.
-func (w *UnchunkWriter) Write(p []byte) (n int, err error) { return w.w.Write(p) }
+func (w *UnchunkWriter) Write(p []byte) (n int, err error) { return w.currentPipe().Write(p) }
 
 // Close is called when all ServiceInfos have been written and no further calls
 // to Next or Write will be made.
@@ -370,8 +383,11 @@ func (w *UnchunkWriter) Close() error {
 
 	// Ensure a writer exists so that it can be closed and any further calls to
 	// write fail without a panic
-	if w.w == nil {
-		_, w.w = io.Pipe()
+	cur := w.currentPipe()
+	if cur == nil {
+		_, pw := io.Pipe()
+		w.setPipe(pw)
+		cur = pw
 	}
 
 	// Lock the readers channel before closing in case a ChunkReader is waiting
@@ -383,7 +399,7 @@ func (w *UnchunkWriter) Close() error {
 
 	// Close the writer so that all calls to Write error and ChunkReader
 	// receives EOF
-	return w.w.Close()
+	return cur.Close()
 }
 
 // CloseWithError causes reads from the associated ChunkReader to error with
@@ -406,12 +422,14 @@ func (w *UnchunkWriter) CloseWithError(err error) error {
 
 	// Create a new pipe and ensure that it is sent to the corresponding
 	// ChunkReader so that the error of CloseWithError is receivable
-	if w.w == nil {
+	cur := w.currentPipe()
+	if cur == nil {
 		pr, pw := io.Pipe()
 		// NOTE: This can deadlock if the reader is not performing a ReadChunk
 		// loop until readers is closed
 		w.readers <- pr
-		w.w = pw
+		w.setPipe(pw)
+		cur = pw
 	}
 
 	// Lock the readers channel before closing in case a ChunkReader is waiting
@@ -423,7 +441,7 @@ func (w *UnchunkWriter) CloseWithError(err error) error {
 
 	// Close the writer so that all calls to Write error and ChunkReader
 	// receives err
-	return w.w.CloseWithError(err)
+	return cur.CloseWithError(err)
 }
 
 // NewChunkInPipe creates a ChunkWriter and UnchunkReader pair. All chunks sent
